@@ -18,7 +18,7 @@ git -C $W apply -R "$D/patch.diff"
 (cd "$W/$PKG" && go test -vet=off -count=1 -run 'Seed' . > /tmp/seed_demo_without.out 2>&1); echo "demo without change: exit=$?"
 git -C $W apply "$D/patch.diff"; rm -f "$W/$DEST"
 for c in "$@"; do
-  VERIF_REPO=$W /verif/check $c > /tmp/seed_check_$c.out 2>&1; rc=$?
+  VERIF_EVIDENCE_DIR=/tmp/seed_ev VERIF_REPO=$W /verif/check $c > /tmp/seed_check_$c.out 2>&1; rc=$?
   echo "check $c exit=$rc keys: $(grep '^  key=' /tmp/seed_check_$c.out | head -4 | tr '\n' ' ')"
 done
 git -C $W checkout -q -- .; git -C $W clean -fdq
